@@ -187,12 +187,28 @@ def run(ctx, lean_ok):
         db_ok = False
         names = []
         ctx.violation('raises:tamoc_data', 'chemical_properties.tamoc_data() raised %s: %s' % (type(e).__name__, e), {'call': 'tamoc_data()'})
+    # molecular weights from the INDEPENDENT parse of ChemData.csv (T['chem']), never read back from the object under test
+    Mtab = {}
+    if T is not None and 'M' in T['chem']['keys'] and T['chem']['units'][T['chem']['keys'].index('M')] == '(g/mol)':
+        iMc = T['chem']['keys'].index('M')
+        Mtab = {n_: float(v_[iMc]) / 1000. for n_, v_ in T['chem']['rows']}
+
+    def M_of(obj, comp, what):
+        got = [float(x) for x in obj.M]
+        if not Mtab or any(c not in Mtab for c in comp):
+            return got
+        ref = [Mtab[c] for c in comp]
+        if len(got) != len(ref) or not close(got, ref, 1e-14):
+            ctx.violation('object-molecular-weights:' + what, '%s.M is not the molecular weight column of ChemData.csv in the order of the composition' % what,
+                          {'composition': comp, 'object M': got, 'ChemData.csv M (kg/mol)': ref})
+        return ref
+
     nmix = ctx.n(400, 20000) if db_ok else 0
     def _mix_case(k):
         nc = 1 if k < 5 else (len(names) if k == 5 else r.randint(1, 10))
         comp = r.sample(names, nc)
         fm = dbm.FluidMixture(comp)
-        M = [float(x) for x in fm.M]
+        M = M_of(fm, comp, 'FluidMixture')
         n = rand_positive(r, nc)
         if k % 4 == 3:
             # "any positive mole vector": the conversions are scale-free — vectors scaled down to 1e-20..1e-12 mol
@@ -284,7 +300,7 @@ def run(ctx, lean_ok):
                 nc += 1
         fp = dbm.FluidParticle(comp, fp_type=fp_type)
         fm = dbm.FluidMixture(comp)
-        M = [float(x) for x in fp.M]
+        M = M_of(fp, comp, 'FluidParticle')
         yk = np.array(rand_positive(r, nc)) if not two_phase else np.array([r.uniform(0.05, 1.) for _ in comp])
         if light and nc > 1:
             yk = np.array([r.uniform(0.6, 0.98)] + [r.uniform(0.01, 1.) for _ in range(nc - 1)])
@@ -335,6 +351,11 @@ def run(ctx, lean_ok):
             ctx.violation('roundtrip:fluid-diameter', 'FluidParticle.diameter(masses_by_diameter(de)) != de', dict(case, got=de2))
         yk_back = fp.mol_frac(m)
         want = yk / np.sum(yk)
+        n_ind = np.array([float(x) for x in m]) / np.array(M)          # moles from the database molecular weights, not the object's
+        yk_ind = n_ind / np.sum(n_ind)
+        if not close([float(x) for x in yk_ind], [float(x) for x in want], TOL['gen_vs_source']):
+            ctx.violation('requested-fractions-independent', 'the masses returned by masses_by_diameter do not have the requested mole fractions '
+                          '(moles computed with the molecular weights of ChemData.csv)', dict(case, got=[float(x) for x in yk_ind]))
         track('mol_frac(masses_by_diameter)', max(relerr(float(a), float(b)) for a, b in zip(yk_back, want)))
         if not close([float(x) for x in yk_back], [float(x) for x in want], TOL['gen_vs_source']):
             ctx.violation('requested-fractions', 'masses_by_diameter does not have the requested mole fractions',
